@@ -268,7 +268,7 @@ func (g *Gen) draw1(t *rapid.T, mr *MRunner) Step {
 			s.Off = rapid.SampledFrom(offs).Draw(t, "off")
 		case "seek":
 			s.Whence = rapid.IntRange(0, 2).Draw(t, "whence")
-			s.Off = rapid.SampledFrom(append(offs, -size, -size-1, -(size / 2), -2)).Draw(t, "off")
+			s.Off = rapid.SampledFrom(append(offs, -size, -size-1, -(size/2), -2)).Draw(t, "off")
 		case "truncate":
 			s.Off = rapid.SampledFrom(offs).Draw(t, "off")
 		}
@@ -304,8 +304,8 @@ func (g *Gen) draw1(t *rapid.T, mr *MRunner) Step {
 		}
 		s.Path2 = g.anyPath(t, m)
 	case "symlink":
-		s.Path = g.anyPath(t, m)  // target
-		s.Path2 = g.under(t, m) // link
+		s.Path = g.anyPath(t, m) // target
+		s.Path2 = g.under(t, m)  // link
 	case "reopen":
 	case "arch_archive", "arch_update":
 		k := rapid.IntRange(1, 4).Draw(t, "k")
